@@ -5,7 +5,7 @@
 import json, os, re, subprocess, sys, shutil
 pid, k = sys.argv[1], sys.argv[2]
 wt = "/tmp/wt/%s" % pid
-out = "/tmp/wt-out/%s" % pid
+out = "%s/%s" % (os.environ.get("KV_OUT", "/tmp/wt-out"), pid)
 meta = json.load(open("%s/meta%s.json" % (out, k)))
 env = dict(os.environ); env["CARGO_NET_OFFLINE"] = "true"
 def sh(cmd, timeout=1800):
